@@ -68,3 +68,68 @@ Definition sp_unexpired (target : N) (r : txrow) : bool :=
   | None, Some e => N.eqb e 0 || (target <=? e)
   | None, None => target <=? x_minobs r + DEFAULT_TX_EXPIRY_DELTA
   end.
+
+(** * Several chains: the universe of blocks a wallet is offered over its life *)
+
+(** Across the branches the wallet sees, a txid names one transaction (it may be mined in
+    blocks of different branches), and an output nullifier names one output of one
+    transaction.  Nothing is required of heights or of revealed nullifiers across branches:
+    different branches may spend the same note in different transactions. *)
+Record valid_universe (U : list block) : Prop := {
+  vu_tx : forall b t b' t', In b U -> In t (b_txs b) -> In b' U -> In t' (b_txs b') -> t_id t = t_id t' -> t = t';
+  vu_out : forall b t o b' t' o', In b U -> In t (b_txs b) -> In o (t_outs t) ->
+             In b' U -> In t' (b_txs b') -> In o' (t_outs t') -> o_key o = o_key o' -> t = t' /\ o = o'
+}.
+
+(** two chains have the same blocks up to height [h] *)
+Definition agree (c c' : list block) (h : N) : Prop := forall b, b_height b <= h -> (In b c <-> In b c').
+
+(** Histories over several branches.  [reach U birthday c s]: the wallet state [s] is reachable
+    with [c] its current best chain, all blocks it was ever offered being in [U].  The best chain
+    may be replaced ([reach_switch]) by any valid chain that has the same blocks up to a height
+    [h] at or above everything the wallet holds as scanned: this is both "new blocks arrive on
+    top" and "the chain reorganises above the height the wallet has rewound to". *)
+Inductive reach (U : list block) (birthday : N) : list block -> wstate -> Prop :=
+| reach_init c : valid_chain birthday c -> incl c U -> reach U birthday c init
+| reach_op c s o s' :
+    reach U birthday c s -> (forall bs, o = OScan bs -> incl bs c) -> step birthday s o = Ok s' ->
+    reach U birthday c s'
+| reach_switch c s c' h :
+    reach U birthday c s -> (forall m, has_block (w_blocks s) m = true -> m <= h) ->
+    agree c c' h -> valid_chain birthday c' -> incl c' U ->
+    reach U birthday c' s.
+
+(** * Vocabulary of the theorems about wallet histories (Properties.v) *)
+
+(** every batch handed to a scan consists of blocks of the chain *)
+Definition ops_on (c : list block) (ops : list op) : Prop := forall bs, In (OScan bs) ops -> incl bs c.
+
+(** the blocks of the chain the wallet currently holds as scanned, in chain order *)
+Definition scanned_blocks (c : list block) (s : wstate) : list block :=
+  filter (fun b => has_block (w_blocks s) (b_height b)) c.
+
+Definition all_scanned (c : list block) (s : wstate) : Prop :=
+  forall b, In b c -> has_block (w_blocks s) (b_height b) = true.
+
+(** rows of rewound (un-mined) transactions have expired at [target] *)
+Definition orphans_dead (s : wstate) (target : N) : Prop :=
+  forall r, In r (w_txs s) -> x_mined r = None -> row_unexpired target r = false.
+
+(** no transaction orphaned by a rewind still counts at tip [tp] *)
+Definition settled (c : list block) (s : wstate) (tp : N) : Prop := orphans_dead s (tp + 1) \/ all_scanned c s.
+
+(** the notes the two wallets hold for an output of a block the first has scanned agree, and
+    so does their spent status with respect to every transaction of a block it has scanned *)
+Definition same_notes (c : list block) (s1 s2 : wstate) : Prop :=
+  forall b t o, In b c -> In t (b_txs b) -> In o (t_outs t) -> owned o = true -> has_block (w_blocks s1) (b_height b) = true ->
+    exists n1 n2, In n1 (w_notes s1) /\ In n2 (w_notes s2)
+      /\ n_key n1 = o_key o /\ n_key n2 = o_key o /\ n_acct n1 = n_acct n2 /\ n_value n1 = n_value n2 /\ n_recv n1 = n_recv n2
+      /\ forall b' t', In b' c -> In t' (b_txs b') -> has_block (w_blocks s1) (b_height b') = true ->
+           (In (t_id t') (n_spent n1) <-> In (t_id t') (n_spent n2)).
+
+(** every row of the first notes table has its twin in the second: same nullifier, account,
+    value, receiving transaction and the same set of spenders *)
+Definition notes_incl (s1 s2 : wstate) : Prop :=
+  forall n1, In n1 (w_notes s1) ->
+    exists n2, In n2 (w_notes s2) /\ n_key n1 = n_key n2 /\ n_acct n1 = n_acct n2 /\ n_value n1 = n_value n2
+               /\ n_recv n1 = n_recv n2 /\ forall x, In x (n_spent n1) <-> In x (n_spent n2).
